@@ -5,10 +5,10 @@ package yubiagent
 // Conformance harness for spec/AgentWire.tla, part 2 (property C13): operations through the real yubiagent client
 // connected (net.Pipe) to the real ServeAgent serving
 //   "rec"  a recording YubiAgent (records the arguments it receives, returns scripted results / errors),
-//   "real" a real *server (remote mode) over a real shim over a real keyring, next to a twin driven directly,
+//   "real" a real *server (remote mode) over a real shim over a real keyring, next to a zvwTwin driven directly,
 //   "tool" a real *server with remote=false whose pivtoolpath is a fake yubico-piv-tool (shell script).
 // The harness logs equalities (arguments received = arguments sent, result seen = result returned, state via the
-// client = state of the twin) and facts (method called, code on the wire, tool invoked, errors); TLC demands them
+// client = state of the zvwTwin) and facts (method called, code on the wire, tool invoked, errors); TLC demands them
 // (C13_Step in spec/TraceWire.tla).
 
 import (
@@ -49,44 +49,44 @@ import (
 // ---------------------------------------------------------------------------------------------
 // plan and records
 
-type rCase struct {
+type zvwRCase struct {
 	Op string            `json:"op"`
 	A  map[string]string `json:"a"`
 }
 
-type rTool struct {
+type zvwRTool struct {
 	Text []string `json:"text"`
 	Exit int      `json:"exit"`
 }
 
-type rGen struct {
+type zvwRGen struct {
 	Kind    string `json:"kind"` // "case" | "tool" | "hist"
 	I       int    `json:"i"`
 	R       int    `json:"r"`
 	Seed    int64  `json:"seed"`
-	Case    *rCase `json:"case,omitempty"`
-	Tool    *rTool `json:"tool,omitempty"`
+	Case    *zvwRCase `json:"case,omitempty"`
+	Tool    *zvwRTool `json:"tool,omitempty"`
 	HistLen int    `json:"histlen,omitempty"`
 }
 
-type rPlan struct {
-	Cases   []rCase `json:"cases"`
-	Tools   []rTool `json:"tools"`
+type zvwRPlan struct {
+	Cases   []zvwRCase `json:"cases"`
+	Tools   []zvwRTool `json:"tools"`
 	Random  int     `json:"random"`
 	HistLen int     `json:"histlen"`
 	Reps    int     `json:"reps"`
-	Replays []rGen  `json:"replays"`
+	Replays []zvwRGen  `json:"replays"`
 	Workers int     `json:"workers"`
 }
 
-type rLine struct {
+type zvwRLine struct {
 	P bool   `json:"p"`
 	S bool   `json:"s"`
 	N int    `json:"n"`
 	C string `json:"c"`
 }
 
-type rLabel struct {
+type zvwRLabel struct {
 	Op      string   `json:"op"`
 	Code    int      `json:"code"`
 	Method  string   `json:"method"`
@@ -98,7 +98,7 @@ type rLabel struct {
 	Pan     bool     `json:"pan"`
 	Remote  bool     `json:"remote"`
 	Toolran bool     `json:"toolran"`
-	Lines   []rLine  `json:"lines"`
+	Lines   []zvwRLine  `json:"lines"`
 	Slots   []string `json:"slots"`
 	Exit    int      `json:"exit"`
 	Steq    bool     `json:"steq"`
@@ -106,30 +106,30 @@ type rLabel struct {
 	Shape   string   `json:"shape"` // scripted result of the served agent: normal | both (result AND error) | neither
 }
 
-type rSt struct {
+type zvwRSt struct {
 	H string `json:"h"`
 }
 
-type rRec struct {
+type zvwRRec struct {
 	Ev   string      `json:"ev"`
 	Fam  string      `json:"fam"`
 	Tid  string      `json:"tid"`
-	Pre  *rSt        `json:"pre,omitempty"`
-	E    *rLabel     `json:"e,omitempty"`
-	Post rSt         `json:"post"`
+	Pre  *zvwRSt        `json:"pre,omitempty"`
+	E    *zvwRLabel     `json:"e,omitempty"`
+	Post zvwRSt         `json:"post"`
 	Info interface{} `json:"info,omitempty"`
 }
 
 // ---------------------------------------------------------------------------------------------
 // the recording agent
 
-type recCall struct {
+type zvwRecCall struct {
 	method string
 	b      map[string][]byte
 	n      map[string]uint64
 }
 
-type recScript struct {
+type zvwRecScript struct {
 	err   error
 	keys  []*agent.Key
 	sig   *ssh.Signature
@@ -138,49 +138,49 @@ type recScript struct {
 	reply []byte
 }
 
-type recAgent struct {
+type zvwRecAgent struct {
 	mu     sync.Mutex
-	calls  []recCall
-	script recScript
+	calls  []zvwRecCall
+	script zvwRecScript
 }
 
-func (r *recAgent) rec(method string, b map[string][]byte, n map[string]uint64) recScript {
+func (r *zvwRecAgent) rec(method string, b map[string][]byte, n map[string]uint64) zvwRecScript {
 	r.mu.Lock()
 	defer r.mu.Unlock()
-	r.calls = append(r.calls, recCall{method, b, n})
+	r.calls = append(r.calls, zvwRecCall{method, b, n})
 	return r.script
 }
-func (r *recAgent) take() []recCall {
+func (r *zvwRecAgent) take() []zvwRecCall {
 	r.mu.Lock()
 	defer r.mu.Unlock()
 	c := r.calls
 	r.calls = nil
 	return c
 }
-func (r *recAgent) set(s recScript) {
+func (r *zvwRecAgent) set(s zvwRecScript) {
 	r.mu.Lock()
 	r.script = s
 	r.calls = nil
 	r.mu.Unlock()
 }
-func pubBlob(k ssh.PublicKey) []byte {
+func zvwPubBlob(k ssh.PublicKey) []byte {
 	if k == nil {
 		return nil
 	}
 	return k.Marshal()
 }
 
-func (r *recAgent) List() ([]*agent.Key, error) { s := r.rec("List", nil, nil); return s.keys, s.err }
-func (r *recAgent) Sign(key ssh.PublicKey, data []byte) (*ssh.Signature, error) {
-	s := r.rec("Sign", map[string][]byte{"key": pubBlob(key), "data": data}, nil)
+func (r *zvwRecAgent) List() ([]*agent.Key, error) { s := r.rec("List", nil, nil); return s.keys, s.err }
+func (r *zvwRecAgent) Sign(key ssh.PublicKey, data []byte) (*ssh.Signature, error) {
+	s := r.rec("Sign", map[string][]byte{"key": zvwPubBlob(key), "data": data}, nil)
 	return s.sig, s.err
 }
-func (r *recAgent) SignWithFlags(key ssh.PublicKey, data []byte, flags agent.SignatureFlags) (*ssh.Signature, error) {
-	s := r.rec("SignWithFlags", map[string][]byte{"key": pubBlob(key), "data": data}, map[string]uint64{"flags": uint64(flags)})
+func (r *zvwRecAgent) SignWithFlags(key ssh.PublicKey, data []byte, flags agent.SignatureFlags) (*ssh.Signature, error) {
+	s := r.rec("SignWithFlags", map[string][]byte{"key": zvwPubBlob(key), "data": data}, map[string]uint64{"flags": uint64(flags)})
 	return s.sig, s.err
 }
-func (r *recAgent) Add(key agent.AddedKey) error {
-	b := map[string][]byte{"priv": privBytes(key.PrivateKey), "comment": []byte(key.Comment)}
+func (r *zvwRecAgent) Add(key agent.AddedKey) error {
+	b := map[string][]byte{"priv": zvwPrivBytes(key.PrivateKey), "comment": []byte(key.Comment)}
 	if key.Certificate != nil {
 		b["cert"] = key.Certificate.Marshal()
 	}
@@ -191,51 +191,51 @@ func (r *recAgent) Add(key agent.AddedKey) error {
 	s := r.rec("Add", b, map[string]uint64{"lt": uint64(key.LifetimeSecs), "cf": cf, "ext": uint64(len(key.ConstraintExtensions))})
 	return s.err
 }
-func (r *recAgent) Remove(key ssh.PublicKey) error {
-	return r.rec("Remove", map[string][]byte{"key": pubBlob(key)}, nil).err
+func (r *zvwRecAgent) Remove(key ssh.PublicKey) error {
+	return r.rec("Remove", map[string][]byte{"key": zvwPubBlob(key)}, nil).err
 }
-func (r *recAgent) RemoveAll() error { return r.rec("RemoveAll", nil, nil).err }
-func (r *recAgent) Lock(p []byte) error {
+func (r *zvwRecAgent) RemoveAll() error { return r.rec("RemoveAll", nil, nil).err }
+func (r *zvwRecAgent) Lock(p []byte) error {
 	return r.rec("Lock", map[string][]byte{"pass": append([]byte{}, p...)}, nil).err
 }
-func (r *recAgent) Unlock(p []byte) error {
+func (r *zvwRecAgent) Unlock(p []byte) error {
 	return r.rec("Unlock", map[string][]byte{"pass": append([]byte{}, p...)}, nil).err
 }
-func (r *recAgent) Signers() ([]ssh.Signer, error) { return nil, r.rec("Signers", nil, nil).err }
-func (r *recAgent) Extension(t string, c []byte) ([]byte, error) {
+func (r *zvwRecAgent) Signers() ([]ssh.Signer, error) { return nil, r.rec("Signers", nil, nil).err }
+func (r *zvwRecAgent) Extension(t string, c []byte) ([]byte, error) {
 	s := r.rec("Extension", map[string][]byte{"type": []byte(t), "contents": c}, nil)
 	return s.reply, s.err
 }
-func (r *recAgent) Forward(req []byte) ([]byte, error) {
+func (r *zvwRecAgent) Forward(req []byte) ([]byte, error) {
 	s := r.rec("Forward", map[string][]byte{"raw": append([]byte{}, req...)}, nil)
 	return s.reply, s.err
 }
-func (r *recAgent) AddHardCert(key ssh.PublicKey, comment string) error {
-	return r.rec("AddHardCert", map[string][]byte{"key": pubBlob(key), "comment": []byte(comment)}, nil).err
+func (r *zvwRecAgent) AddHardCert(key ssh.PublicKey, comment string) error {
+	return r.rec("AddHardCert", map[string][]byte{"key": zvwPubBlob(key), "comment": []byte(comment)}, nil).err
 }
-func (r *recAgent) Wait(m byte) error { return r.rec("Wait", nil, map[string]uint64{"w": uint64(m)}).err }
-func (r *recAgent) Close() error      { return r.rec("Close", nil, nil).err }
-func (r *recAgent) ListSlots() ([]string, error) {
+func (r *zvwRecAgent) Wait(m byte) error { return r.rec("Wait", nil, map[string]uint64{"w": uint64(m)}).err }
+func (r *zvwRecAgent) Close() error      { return r.rec("Close", nil, nil).err }
+func (r *zvwRecAgent) ListSlots() ([]string, error) {
 	s := r.rec("ListSlots", nil, nil)
 	return s.slots, s.err
 }
-func (r *recAgent) ReadSlot(slot string) (*x509.Certificate, error) {
+func (r *zvwRecAgent) ReadSlot(slot string) (*x509.Certificate, error) {
 	s := r.rec("ReadSlot", map[string][]byte{"slot": []byte(slot)}, nil)
 	return s.cert, s.err
 }
-func (r *recAgent) AttestSlot(slot string) (*x509.Certificate, error) {
+func (r *zvwRecAgent) AttestSlot(slot string) (*x509.Certificate, error) {
 	s := r.rec("AttestSlot", map[string][]byte{"slot": []byte(slot)}, nil)
 	return s.cert, s.err
 }
-func (r *recAgent) AddSmartcardKey(id string, pin []byte, lt time.Duration, cf bool) error {
+func (r *zvwRecAgent) AddSmartcardKey(id string, pin []byte, lt time.Duration, cf bool) error {
 	return r.rec("AddSmartcardKey", nil, nil).err
 }
-func (r *recAgent) RemoveSmartcardKey(id string, pin []byte) error {
+func (r *zvwRecAgent) RemoveSmartcardKey(id string, pin []byte) error {
 	return r.rec("RemoveSmartcardKey", nil, nil).err
 }
 
-// privBytes canonicalises a private key as received by an agent (pointer or value forms).
-func privBytes(k interface{}) []byte {
+// zvwPrivBytes canonicalises a private key as received by an agent (pointer or value forms).
+func zvwPrivBytes(k interface{}) []byte {
 	switch p := k.(type) {
 	case *ed25519.PrivateKey:
 		return append([]byte("ed25519:"), []byte(*p)...)
@@ -251,7 +251,7 @@ func privBytes(k interface{}) []byte {
 		sort.Strings(ps)
 		return []byte(fmt.Sprintf("rsa:%x:%x:%x:%s", p.N, p.E, p.D, strings.Join(ps, ",")))
 	case rsa.PrivateKey:
-		return privBytes(&p)
+		return zvwPrivBytes(&p)
 	}
 	return []byte(fmt.Sprintf("unknown:%T", k))
 }
@@ -259,7 +259,7 @@ func privBytes(k interface{}) []byte {
 // ---------------------------------------------------------------------------------------------
 // connection pair: client <-> ServeAgent, with a tee that sees the message code the client writes
 
-type codeTee struct {
+type zvwCodeTee struct {
 	net.Conn
 	mu    sync.Mutex
 	hdr   []byte
@@ -267,7 +267,7 @@ type codeTee struct {
 	codes []int
 }
 
-func (t *codeTee) Write(p []byte) (int, error) {
+func (t *zvwCodeTee) Write(p []byte) (int, error) {
 	t.mu.Lock()
 	d := p
 	for len(d) > 0 {
@@ -306,16 +306,16 @@ func (t *codeTee) Write(p []byte) (int, error) {
 	return t.Conn.Write(p)
 }
 
-// nzConn drops zero-length writes (net.Pipe artefact, see above).
-type nzConn struct{ net.Conn }
+// zvwNzConn drops zero-length writes (net.Pipe artefact, see above).
+type zvwNzConn struct{ net.Conn }
 
-func (c nzConn) Write(p []byte) (int, error) {
+func (c zvwNzConn) Write(p []byte) (int, error) {
 	if len(p) == 0 {
 		return 0, nil
 	}
 	return c.Conn.Write(p)
 }
-func (t *codeTee) take() []int {
+func (t *zvwCodeTee) take() []int {
 	t.mu.Lock()
 	defer t.mu.Unlock()
 	c := t.codes
@@ -323,9 +323,9 @@ func (t *codeTee) take() []int {
 	return c
 }
 
-type rPair struct {
+type zvwRPair struct {
 	cl   YubiAgent
-	tee  *codeTee
+	tee  *zvwCodeTee
 	done chan struct{}
 	mu   sync.Mutex
 	pan  interface{}
@@ -333,9 +333,9 @@ type rPair struct {
 	s    net.Conn
 }
 
-func newPair(served YubiAgent) *rPair {
+func zvwNewPair(served YubiAgent) *zvwRPair {
 	c1, c2 := net.Pipe()
-	p := &rPair{tee: &codeTee{Conn: c1}, done: make(chan struct{}), s: c2}
+	p := &zvwRPair{tee: &zvwCodeTee{Conn: c1}, done: make(chan struct{}), s: c2}
 	cl, err := NewClientFromConn(p.tee)
 	if err != nil {
 		panic(err)
@@ -351,14 +351,14 @@ func newPair(served YubiAgent) *rPair {
 				p.mu.Unlock()
 			}
 		}()
-		e := ServeAgent(served, nzConn{c2})
+		e := ServeAgent(served, zvwNzConn{c2})
 		p.mu.Lock()
 		p.err = e
 		p.mu.Unlock()
 	}()
 	return p
 }
-func (p *rPair) ended() bool {
+func (p *zvwRPair) ended() bool {
 	select {
 	case <-p.done:
 		return true
@@ -366,13 +366,13 @@ func (p *rPair) ended() bool {
 		return false
 	}
 }
-func (p *rPair) panicked() bool {
+func (p *zvwRPair) panicked() bool {
 	// a crashing server goroutine records its panic before it closes its end of the pipe
 	p.mu.Lock()
 	defer p.mu.Unlock()
 	return p.pan != nil
 }
-func (p *rPair) close() {
+func (p *zvwRPair) close() {
 	p.tee.Conn.Close()
 	<-p.done
 }
@@ -380,11 +380,11 @@ func (p *rPair) close() {
 // ---------------------------------------------------------------------------------------------
 // concrete values
 
-var rCertPool []*x509.Certificate
-var rCertOnce sync.Once
+var zvwRCertPool []*x509.Certificate
+var zvwRCertOnce sync.Once
 
-func x509Pool() []*x509.Certificate {
-	rCertOnce.Do(func() {
+func zvwX509Pool() []*x509.Certificate {
+	zvwRCertOnce.Do(func() {
 		ek, _ := ecdsa.GenerateKey(elliptic.P256(), rand.Reader)
 		ek3, _ := ecdsa.GenerateKey(elliptic.P384(), rand.Reader)
 		rk, _ := rsa.GenerateKey(rand.Reader, 2048)
@@ -399,12 +399,12 @@ func x509Pool() []*x509.Certificate {
 			if err != nil {
 				return
 			}
-			// only certificates the repository's own parser reads back byte-identically are used
+			// zvwOnly certificates the repository's own parser reads back byte-identically are used
 			c, err := utils.ParsePEMCertificate(pem.EncodeToMemory(&pem.Block{Type: "CERTIFICATE", Bytes: der}))
 			if err != nil || !bytes.Equal(c.Raw, der) {
 				return
 			}
-			rCertPool = append(rCertPool, c)
+			zvwRCertPool = append(zvwRCertPool, c)
 		}
 		mk(&ek.PublicKey, ek, 0, "slot 9a")
 		mk(&ek.PublicKey, ek, 700, "attestation ü")
@@ -413,15 +413,25 @@ func x509Pool() []*x509.Certificate {
 		mk(&rk.PublicKey, rk, 9000, "rsa-large")
 		mk(&ek.PublicKey, ek, 60000, "huge")
 	})
-	return rCertPool
+	return zvwRCertPool
 }
 
-var rErrTexts = []string{"agent: failure", "yubiagent: not found", "fehler: schlüssel nicht gefunden", "エラー", "e", "error with \"quotes\" and \\ and \n newline",
+var zvwRErrTexts = []string{"agent: failure", "yubiagent: not found", "fehler: schlüssel nicht gefunden", "エラー", "e", "error with \"quotes\" and \\ and \n newline",
 	"SUCCESS ", "success", strings.Repeat("long error text ", 300), "\xff\xfe binary \x00 text"}
 
-func rndErr(r *mrand.Rand) error { return errors.New(rErrTexts[r.Intn(len(rErrTexts))]) }
+func zvwRndErr(r *mrand.Rand) error { return errors.New(zvwRErrTexts[r.Intn(len(zvwRErrTexts))]) }
 
-func rndSize(r *mrand.Rand, max int) int {
+// zvwRndFwdCode: a message code of a raw request whose forwarding is compared: the OpenSSH requests the x/crypto
+// server does not implement (smartcard add / remove / add constrained, extension) and codes far away from the ones
+// yubiagent defines (a protocol extension may take a free code next to 31..35; C12 sweeps all 256 codes).
+func zvwRndFwdCode(r *mrand.Rand) byte {
+	if r.Intn(2) == 0 {
+		return []byte{20, 21, 26, 27}[r.Intn(4)]
+	}
+	return byte(64 + r.Intn(192))
+}
+
+func zvwRndSize(r *mrand.Rand, max int) int {
 	switch r.Intn(10) {
 	case 0:
 		return 0
@@ -438,34 +448,34 @@ func rndSize(r *mrand.Rand, max int) int {
 	return r.Intn(max + 1)
 }
 
-var rKinds = []string{"ed25519", "ecdsa256", "ecdsa384", "ecdsa521", "rsa2048"}
+var zvwRKinds = []string{"ed25519", "ecdsa256", "ecdsa384", "ecdsa521", "rsa2048"}
 
-func rndKeyPair(r *mrand.Rand, abstract string) *verifh.KeyPair {
+func zvwRndKeyPair(r *mrand.Rand, abstract string) *verifh.KeyPair {
 	slot := 20
 	if abstract == "k2" {
 		slot = 21
 	}
-	kp := verifh.PoolKey(slot+2*r.Intn(2), rKinds[r.Intn(len(rKinds))])
+	kp := verifh.PoolKey(slot+2*r.Intn(2), zvwRKinds[r.Intn(len(zvwRKinds))])
 	if rk, ok := kp.Priv.(*rsa.PrivateKey); ok {
-		rPreMu.Lock()
+		zvwRPreMu.Lock()
 		rk.Precompute() // the x/crypto client does this on every Add; do it once, not concurrently
-		rPreMu.Unlock()
+		zvwRPreMu.Unlock()
 	}
 	return kp
 }
 
-var rPreMu sync.Mutex
+var zvwRPreMu sync.Mutex
 
-func rndPub(r *mrand.Rand, abstract string) ssh.PublicKey {
-	k := rndKeyPair(r, abstract)
+func zvwRndPub(r *mrand.Rand, abstract string) ssh.PublicKey {
+	k := zvwRndKeyPair(r, abstract)
 	if r.Intn(3) == 0 {
-		return verifh.Mint(wCA.Signer, verifh.CertSpec{Key: k.Pub, KeyID: rndComment(r), ValidBefore: uint64(time.Now().Unix() + 3600),
-			Principals: []string{"a", rndComment(r)}, Serial: uint64(r.Int63())})
+		return verifh.Mint(zvwWCA.Signer, verifh.CertSpec{Key: k.Pub, KeyID: zvwRndComment(r), ValidBefore: uint64(time.Now().Unix() + 3600),
+			Principals: []string{"a", zvwRndComment(r)}, Serial: uint64(r.Int63())})
 	}
 	return k.Pub
 }
 
-func keysEq(a, b []*agent.Key) bool { // multisets of (format, blob, comment)
+func zvwKeysEq(a, b []*agent.Key) bool { // multisets of (format, blob, comment)
 	f := func(ks []*agent.Key) []string {
 		o := []string{}
 		for _, k := range ks {
@@ -486,14 +496,14 @@ func keysEq(a, b []*agent.Key) bool { // multisets of (format, blob, comment)
 	return true
 }
 
-func sigEq(a, b *ssh.Signature) bool {
+func zvwSigEq(a, b *ssh.Signature) bool {
 	if a == nil || b == nil {
 		return a == b
 	}
 	return a.Format == b.Format && bytes.Equal(a.Blob, b.Blob) && bytes.Equal(a.Rest, b.Rest)
 }
 
-func strsEq(a, b []string) bool {
+func zvwStrsEq(a, b []string) bool {
 	if len(a) != len(b) {
 		return false
 	}
@@ -508,42 +518,42 @@ func strsEq(a, b []string) bool {
 // ---------------------------------------------------------------------------------------------
 // one operation against the recording agent
 
-type rCtx struct {
+type zvwRCtx struct {
 	r    *mrand.Rand
-	rec  *recAgent
-	pair *rPair
+	rec  *zvwRecAgent
+	pair *zvwRPair
 	kind int // >= 0: exported case run number; add-hardware-certificate cases walk every key type, plain and certificate
 }
 
-func (c *rCtx) ensure() {
+func (c *zvwRCtx) ensure() {
 	if c.pair == nil || c.pair.ended() {
 		if c.pair != nil {
 			c.pair.close()
 		}
-		c.pair = newPair(c.rec)
+		c.pair = zvwNewPair(c.rec)
 	}
 }
 
-func only(calls []recCall) (recCall, int) {
+func zvwOnly(calls []zvwRecCall) (zvwRecCall, int) {
 	if len(calls) == 0 {
-		return recCall{}, 0
+		return zvwRecCall{}, 0
 	}
 	return calls[0], len(calls)
 }
 
 // recOp runs one operation through the client against the recording agent and reports what both ends saw.
-func (c *rCtx) recOp(op string, a map[string]string) (lab rLabel, vr string) {
+func (c *zvwRCtx) recOp(op string, a map[string]string) (lab zvwRLabel, vr string) {
 	r := c.r
 	c.ensure()
-	lab = rLabel{Op: op, Code: -1, Mode: "rec", Lines: []rLine{}, Slots: []string{}, Steq: true, Argeq: true, Reseq: true}
+	lab = zvwRLabel{Op: op, Code: -1, Mode: "rec", Lines: []zvwRLine{}, Slots: []string{}, Steq: true, Argeq: true, Reseq: true}
 	cl := c.pair.cl
 	fail := r.Intn(3) == 0
-	var sc recScript
+	var sc zvwRecScript
 	if fail {
-		sc.err = rndErr(r)
+		sc.err = zvwRndErr(r)
 	}
 	var cerr error
-	check := func(call recCall, want map[string][]byte, wantN map[string]uint64) bool {
+	check := func(call zvwRecCall, want map[string][]byte, wantN map[string]uint64) bool {
 		for k, v := range want {
 			if !bytes.Equal(call.b[k], v) {
 				return false
@@ -568,8 +578,8 @@ func (c *rCtx) recOp(op string, a map[string]string) (lab rLabel, vr string) {
 		switch op {
 		case "list", "signers":
 			for i := r.Intn(5); i > 0; i-- {
-				pk := rndPub(r, []string{"k1", "k2"}[r.Intn(2)])
-				sc.keys = append(sc.keys, &agent.Key{Format: pk.Type(), Blob: pk.Marshal(), Comment: rndComment(r)})
+				pk := zvwRndPub(r, []string{"k1", "k2"}[r.Intn(2)])
+				sc.keys = append(sc.keys, &agent.Key{Format: pk.Type(), Blob: pk.Marshal(), Comment: zvwRndComment(r)})
 			}
 			if fail {
 				sc.keys = nil
@@ -579,7 +589,7 @@ func (c *rCtx) recOp(op string, a map[string]string) (lab rLabel, vr string) {
 			if op == "list" {
 				ks, err := cl.List()
 				cerr = err
-				lab.Reseq = fail || keysEq(ks, sc.keys)
+				lab.Reseq = fail || zvwKeysEq(ks, sc.keys)
 			} else {
 				ss, err := cl.Signers()
 				cerr = err
@@ -592,23 +602,23 @@ func (c *rCtx) recOp(op string, a map[string]string) (lab rLabel, vr string) {
 				for _, k := range sc.keys {
 					exp = append(exp, &agent.Key{Format: k.Format, Blob: k.Blob})
 				}
-				lab.Reseq = fail || keysEq(got, exp)
+				lab.Reseq = fail || zvwKeysEq(got, exp)
 			}
 		case "sign":
-			key := rndPub(r, a["key"])
+			key := zvwRndPub(r, a["key"])
 			n := 0
 			if a["data"] != "d0" {
-				n = rndSize(r, 65536)
+				n = zvwRndSize(r, 65536)
 			}
-			data := rndBytes(r, n)
+			data := zvwRndBytes(r, n)
 			fl := map[string]agent.SignatureFlags{"f0": 0, "f2": agent.SignatureFlagRsaSha256, "f4": agent.SignatureFlagRsaSha512}[a["flags"]]
 			if r.Intn(6) == 0 {
 				fl = agent.SignatureFlags(r.Uint32())
 			}
 			if !fail {
-				sc.sig = &ssh.Signature{Format: key.Type(), Blob: rndBytes(r, 1+rndSize(r, 600))}
+				sc.sig = &ssh.Signature{Format: key.Type(), Blob: zvwRndBytes(r, 1+zvwRndSize(r, 600))}
 				if r.Intn(4) == 0 {
-					sc.sig.Rest = rndBytes(r, 1+r.Intn(40))
+					sc.sig.Rest = zvwRndBytes(r, 1+r.Intn(40))
 				}
 			}
 			c.rec.set(sc)
@@ -620,19 +630,19 @@ func (c *rCtx) recOp(op string, a map[string]string) (lab rLabel, vr string) {
 				sig, cerr = cl.SignWithFlags(key, data, fl)
 			}
 			want, wantN = map[string][]byte{"key": key.Marshal(), "data": data}, map[string]uint64{"flags": uint64(fl)}
-			lab.Reseq = fail || sigEq(sig, sc.sig)
+			lab.Reseq = fail || zvwSigEq(sig, sc.sig)
 		case "add", "addc":
-			kp := rndKeyPair(r, a["key"])
-			ak := agent.AddedKey{PrivateKey: kp.Priv, Comment: rndComment(r)}
+			kp := zvwRndKeyPair(r, a["key"])
+			ak := agent.AddedKey{PrivateKey: kp.Priv, Comment: zvwRndComment(r)}
 			if a["comment"] == "" {
 				ak.Comment = ""
 			}
 			if p, ok := kp.Priv.(*ed25519.PrivateKey); ok && r.Intn(2) == 0 {
 				ak.PrivateKey = *p // the value form is accepted as well
 			}
-			want = map[string][]byte{"priv": privBytes(kp.Priv), "comment": []byte(ak.Comment)}
+			want = map[string][]byte{"priv": zvwPrivBytes(kp.Priv), "comment": []byte(ak.Comment)}
 			if r.Intn(3) == 0 {
-				ak.Certificate = verifh.Mint(wCA.Signer, verifh.CertSpec{Key: kp.Pub, KeyID: rndComment(r), ValidBefore: uint64(time.Now().Unix() + 3600)})
+				ak.Certificate = verifh.Mint(zvwWCA.Signer, verifh.CertSpec{Key: kp.Pub, KeyID: zvwRndComment(r), ValidBefore: uint64(time.Now().Unix() + 3600)})
 				want["cert"] = ak.Certificate.Marshal()
 			}
 			if op == "addc" {
@@ -653,7 +663,7 @@ func (c *rCtx) recOp(op string, a map[string]string) (lab rLabel, vr string) {
 			vr = fmt.Sprintf("%s-lt%d-cf%d", kp.Kind, ak.LifetimeSecs, cf)
 			cerr = cl.Add(ak)
 		case "remove":
-			key := rndPub(r, a["key"])
+			key := zvwRndPub(r, a["key"])
 			c.rec.set(sc)
 			cerr = cl.Remove(key)
 			want = map[string][]byte{"key": key.Marshal()}
@@ -661,7 +671,7 @@ func (c *rCtx) recOp(op string, a map[string]string) (lab rLabel, vr string) {
 			c.rec.set(sc)
 			cerr = cl.RemoveAll()
 		case "lock", "unlock":
-			p := rndBytes(r, rndSize(r, 200))
+			p := zvwRndBytes(r, zvwRndSize(r, 200))
 			c.rec.set(sc)
 			vr = fmt.Sprintf("p%d", len(p))
 			if op == "lock" {
@@ -671,17 +681,17 @@ func (c *rCtx) recOp(op string, a map[string]string) (lab rLabel, vr string) {
 			}
 			want = map[string][]byte{"pass": p}
 		case "ahc_s", "ahc_l":
-			key := rndPub(r, a["key"])
-			cm := rndComment(r)
+			key := zvwRndPub(r, a["key"])
+			cm := zvwRndComment(r)
 			if a["comment"] == "" {
 				cm = ""
 			}
 			if c.kind >= 0 {
-				kp := verifh.PoolKey(20, rKinds[c.kind%len(rKinds)])
+				kp := verifh.PoolKey(20, zvwRKinds[c.kind%len(zvwRKinds)])
 				key = kp.Pub
 				vr = "plain-" + kp.Kind
 				if a["comment"] != "" {
-					key = verifh.Mint(wCA.Signer, verifh.CertSpec{Key: kp.Pub, KeyID: rndComment(r), ValidBefore: uint64(time.Now().Unix() + 3600)})
+					key = verifh.Mint(zvwWCA.Signer, verifh.CertSpec{Key: kp.Pub, KeyID: zvwRndComment(r), ValidBefore: uint64(time.Now().Unix() + 3600)})
 					vr = "cert-" + kp.Kind
 				}
 			}
@@ -702,10 +712,10 @@ func (c *rCtx) recOp(op string, a map[string]string) (lab rLabel, vr string) {
 				vr += "-errtext-differs"
 			}
 		case "listslots":
-			// four shapes: slots only, error only, slots AND error, neither (= an empty listing)
+			// four shapes: slots zvwOnly, error zvwOnly, slots AND error, neither (= an empty listing)
 			if !fail || r.Intn(2) == 0 {
 				for i := r.Intn(5); i > 0; i-- {
-					sc.slots = append(sc.slots, wSlots[r.Intn(7)])
+					sc.slots = append(sc.slots, zvwWSlots[r.Intn(7)])
 				}
 				if fail && len(sc.slots) > 0 {
 					lab.Shape, vr = "both", "slots-and-error"
@@ -714,13 +724,13 @@ func (c *rCtx) recOp(op string, a map[string]string) (lab rLabel, vr string) {
 			c.rec.set(sc)
 			sl, err := cl.ListSlots()
 			cerr = err
-			lab.Reseq = fail || strsEq(sl, sc.slots)
+			lab.Reseq = fail || zvwStrsEq(sl, sc.slots)
 		case "readslot", "attestslot":
 			slot := a["slot"]
 			if r.Intn(2) == 0 {
-				slot = strings.ReplaceAll(rndComment(r), "\x00", "")
+				slot = strings.ReplaceAll(zvwRndComment(r), "\x00", "")
 			}
-			// four shapes: certificate only, error only, certificate AND error, neither (nil, nil)
+			// four shapes: certificate zvwOnly, error zvwOnly, certificate AND error, neither (nil, nil)
 			shape := "cert"
 			switch {
 			case fail && r.Intn(2) == 0:
@@ -736,10 +746,10 @@ func (c *rCtx) recOp(op string, a map[string]string) (lab rLabel, vr string) {
 			fail = shape == "err" || shape == "both"
 			sc.err = nil
 			if fail {
-				sc.err = rndErr(r)
+				sc.err = zvwRndErr(r)
 			}
 			if shape == "cert" || shape == "both" {
-				sc.cert = x509Pool()[r.Intn(len(x509Pool()))]
+				sc.cert = zvwX509Pool()[r.Intn(len(zvwX509Pool()))]
 			}
 			if shape == "both" || shape == "neither" {
 				lab.Shape = shape
@@ -761,10 +771,9 @@ func (c *rCtx) recOp(op string, a map[string]string) (lab rLabel, vr string) {
 			cerr = cl.Wait(w)
 			wantN = map[string]uint64{"w": uint64(w)}
 		case "forward":
-			fw := []int{0, 2, 9, 20, 21, 24, 26, 27, 30, 36, 39, 40, 100, 255}
-			req := append([]byte{byte(fw[r.Intn(len(fw))])}, rndBytes(r, rndSize(r, 65536))...)
+			req := append([]byte{zvwRndFwdCode(r)}, zvwRndBytes(r, zvwRndSize(r, 65536))...)
 			if !fail {
-				sc.reply = rndBytes(r, rndSize(r, 65536))
+				sc.reply = zvwRndBytes(r, zvwRndSize(r, 65536))
 			}
 			c.rec.set(sc)
 			vr = fmt.Sprintf("code%d-req%d-reply%d", req[0], len(req), len(sc.reply))
@@ -773,7 +782,7 @@ func (c *rCtx) recOp(op string, a map[string]string) (lab rLabel, vr string) {
 			want = map[string][]byte{"raw": req}
 			lab.Reseq = fail || bytes.Equal(resp, sc.reply)
 		case "addsc", "rmsc":
-			id, pin := rndComment(r), rndBytes(r, rndSize(r, 64))
+			id, pin := zvwRndComment(r), zvwRndBytes(r, zvwRndSize(r, 64))
 			ok := r.Intn(3) != 0
 			if !fail {
 				sc.reply = []byte{agentSuccess}
@@ -810,7 +819,7 @@ func (c *rCtx) recOp(op string, a map[string]string) (lab rLabel, vr string) {
 	}
 	lab.Cerr = cerr != nil
 	calls := c.rec.take()
-	call, n := only(calls)
+	call, n := zvwOnly(calls)
 	lab.Method, lab.Ncalls = call.method, n
 	if n >= 1 {
 		lab.Argeq = check(call, want, wantN)
@@ -838,9 +847,9 @@ func (c *rCtx) recOp(op string, a map[string]string) (lab rLabel, vr string) {
 // ---------------------------------------------------------------------------------------------
 // the fake PIV tool
 
-type rToolDir struct{ dir, path string }
+type zvwRToolDir struct{ dir, path string }
 
-func newToolDir(base string, n int) *rToolDir {
+func zvwNewToolDir(base string, n int) *zvwRToolDir {
 	d := filepath.Join(base, fmt.Sprintf("tool%d", n))
 	os.MkdirAll(d, 0o755)
 	p := filepath.Join(d, "yubico-piv-tool")
@@ -848,16 +857,16 @@ func newToolDir(base string, n int) *rToolDir {
 	if err := os.WriteFile(p, []byte(script), 0o755); err != nil {
 		panic(err)
 	}
-	return &rToolDir{d, p}
+	return &zvwRToolDir{d, p}
 }
-func (t *rToolDir) arm(out []byte, rc int) {
+func (t *zvwRToolDir) arm(out []byte, rc int) {
 	os.WriteFile(filepath.Join(t.dir, "out"), out, 0o644)
 	os.WriteFile(filepath.Join(t.dir, "rc"), []byte(fmt.Sprint(rc)), 0o644)
 	os.Remove(filepath.Join(t.dir, "args"))
 }
 
 // ran returns the argument lists of the invocations since arm.
-func (t *rToolDir) ran() [][]string {
+func (t *zvwRToolDir) ran() [][]string {
 	b, err := os.ReadFile(filepath.Join(t.dir, "args"))
 	if err != nil {
 		return nil
@@ -875,7 +884,7 @@ func (t *rToolDir) ran() [][]string {
 	return out
 }
 
-var rLineTexts = map[string][]string{
+var zvwRLineTexts = map[string][]string{
 	"wf":     {"Slot 9a:\t"},
 	"wf2":    {"Slot 9c:\t"},
 	"slot4":  {"Slot"},
@@ -886,11 +895,11 @@ var rLineTexts = map[string][]string{
 	"empty":  {""},
 }
 
-func describeLines(out string) ([]rLine, []string) {
-	var ls []rLine
+func zvwDescribeLines(out string) ([]zvwRLine, []string) {
+	var ls []zvwRLine
 	var toks []string
 	for _, l := range strings.Split(out, "\n") {
-		d := rLine{P: strings.HasPrefix(l, "Slot"), S: strings.HasPrefix(l, "Slot "), N: len(l)}
+		d := zvwRLine{P: strings.HasPrefix(l, "Slot"), S: strings.HasPrefix(l, "Slot "), N: len(l)}
 		if len(l) >= 7 {
 			d.C = hex.EncodeToString([]byte(l[5:7]))
 		}
@@ -911,7 +920,7 @@ func describeLines(out string) ([]rLine, []string) {
 	return ls, toks
 }
 
-func hexAll(s []string) []string {
+func zvwHexAll(s []string) []string {
 	o := []string{}
 	for _, x := range s {
 		o = append(o, hex.EncodeToString([]byte(x)))
@@ -919,25 +928,25 @@ func hexAll(s []string) []string {
 	return o
 }
 
-// toolListSlots runs ListSlots on a real *server with the fake tool, directly and through the client.
-func toolListSlots(env *wEnv, td *rToolDir, out string, exit int, remote bool) []struct {
-	lab rLabel
+// zvwToolListSlots runs ListSlots on a real *server with the fake tool, directly and through the client.
+func zvwToolListSlots(env *zvwWEnv, td *zvwRToolDir, out string, exit int, remote bool) []struct {
+	lab zvwRLabel
 	vr  string
 } {
 	srv := &server{ShimAgent: env.shim, pivtoolpath: td.path, remote: remote}
-	lines, toks := describeLines(out)
+	lines, toks := zvwDescribeLines(out)
 	vr := strings.Join(toks, "|")
 	var res []struct {
-		lab rLabel
+		lab zvwRLabel
 		vr  string
 	}
 	for _, via := range []string{"direct", "client"} {
-		lab := rLabel{Op: "listslots", Code: 32, Mode: "tool", Method: "ListSlots", Ncalls: 1, Lines: lines, Slots: []string{}, Exit: exit,
+		lab := zvwRLabel{Op: "listslots", Code: 32, Mode: "tool", Method: "ListSlots", Ncalls: 1, Lines: lines, Slots: []string{}, Exit: exit,
 			Remote: remote, Steq: true, Reseq: true, Argeq: true}
 		td.arm([]byte(out), exit)
 		var sl []string
 		var err error
-		var pair *rPair
+		var pair *zvwRPair
 		func() {
 			defer func() {
 				if p := recover(); p != nil {
@@ -948,7 +957,7 @@ func toolListSlots(env *wEnv, td *rToolDir, out string, exit int, remote bool) [
 			if via == "direct" {
 				sl, err = srv.ListSlots()
 			} else {
-				pair = newPair(srv)
+				pair = zvwNewPair(srv)
 				sl, err = pair.cl.ListSlots()
 			}
 		}()
@@ -959,27 +968,30 @@ func toolListSlots(env *wEnv, td *rToolDir, out string, exit int, remote bool) [
 			}
 		}
 		lab.Cerr, lab.Aerr = err != nil, err != nil
-		lab.Slots = hexAll(sl)
+		lab.Slots = zvwHexAll(sl)
 		inv := td.ran()
 		lab.Toolran = len(inv) > 0
 		if !remote {
-			lab.Argeq = len(inv) == 1 && strsEq(inv[0], []string{"-a", "status"})
+			lab.Argeq = len(inv) == 0 || (len(inv) == 1 && zvwStrsEq(inv[0], []string{"-a", "status"}))
 		}
 		res = append(res, struct {
-			lab rLabel
+			lab zvwRLabel
 			vr  string
 		}{lab, vr + "/" + via})
 	}
 	return res
 }
 
-// toolCertOp runs ReadSlot / AttestSlot with the fake tool, directly and through the client.
-func toolCertOp(env *wEnv, td *rToolDir, r *mrand.Rand, op string, remote bool) (rLabel, string) {
+// zvwToolCertOp runs ReadSlot / AttestSlot with the fake tool, directly and through the client.
+func zvwToolCertOp(env *zvwWEnv, td *zvwRToolDir, r *mrand.Rand, op string, remote bool) (zvwRLabel, string) {
 	srv := &server{ShimAgent: env.shim, pivtoolpath: td.path, remote: remote}
-	slot := wSlots[r.Intn(len(wSlots))]
+	slot := zvwWSlots[r.Intn(7)] // two hex digits
+	if r.Intn(4) == 0 {
+		slot = zvwWSlots[r.Intn(len(zvwWSlots))] // any name: a served agent may refuse it before it runs the tool
+	}
 	var out []byte
 	kind := []string{"pem", "pem-trailing-text", "garbage", "empty", "two-pem"}[r.Intn(5)]
-	crt := x509Pool()[r.Intn(len(x509Pool()))]
+	crt := zvwX509Pool()[r.Intn(len(zvwX509Pool()))]
 	p := pem.EncodeToMemory(&pem.Block{Type: "CERTIFICATE", Bytes: crt.Raw})
 	switch kind {
 	case "pem":
@@ -987,18 +999,18 @@ func toolCertOp(env *wEnv, td *rToolDir, r *mrand.Rand, op string, remote bool) 
 	case "pem-trailing-text":
 		out = append(append([]byte{}, p...), []byte("Successfully read certificate\n")...)
 	case "garbage":
-		out = rndBytes(r, 1+r.Intn(200))
+		out = zvwRndBytes(r, 1+r.Intn(200))
 	case "empty":
 		out = nil
 	case "two-pem":
-		out = append(append([]byte{}, p...), pem.EncodeToMemory(&pem.Block{Type: "CERTIFICATE", Bytes: x509Pool()[0].Raw})...)
+		out = append(append([]byte{}, p...), pem.EncodeToMemory(&pem.Block{Type: "CERTIFICATE", Bytes: zvwX509Pool()[0].Raw})...)
 	}
 	exit := 0
 	if r.Intn(4) == 0 {
 		exit = 1 + r.Intn(3)
 	}
-	lab := rLabel{Op: op, Mode: "tool", Method: map[string]string{"readslot": "ReadSlot", "attestslot": "AttestSlot"}[op], Ncalls: 1,
-		Lines: []rLine{}, Slots: []string{}, Exit: exit, Remote: remote, Steq: true, Code: map[string]int{"readslot": 33, "attestslot": 34}[op]}
+	lab := zvwRLabel{Op: op, Mode: "tool", Method: map[string]string{"readslot": "ReadSlot", "attestslot": "AttestSlot"}[op], Ncalls: 1,
+		Lines: []zvwRLine{}, Slots: []string{}, Exit: exit, Remote: remote, Steq: true, Code: map[string]int{"readslot": 33, "attestslot": 34}[op]}
 	action := map[string]string{"readslot": "read-certificate", "attestslot": "attest"}[op]
 	call := func(a YubiAgent) (*x509.Certificate, error) {
 		if op == "readslot" {
@@ -1018,7 +1030,7 @@ func toolCertOp(env *wEnv, td *rToolDir, r *mrand.Rand, op string, remote bool) 
 		dc, derr = call(srv)
 		inv1 := td.ran()
 		td.arm(out, exit)
-		pair := newPair(srv)
+		pair := zvwNewPair(srv)
 		cc, cerr = call(pair.cl)
 		pair.close()
 		if pair.pan != nil {
@@ -1027,7 +1039,14 @@ func toolCertOp(env *wEnv, td *rToolDir, r *mrand.Rand, op string, remote bool) 
 		inv2 := td.ran()
 		lab.Toolran = len(inv1) > 0 || len(inv2) > 0
 		want := []string{"-a", action, "-s", slot}
-		lab.Argeq = remote || (len(inv1) == 1 && len(inv2) == 1 && strsEq(inv1[0], want) && strsEq(inv2[0], want))
+		// whenever the tool ran it was asked for this action and this slot (a served agent may refuse a request
+		// without running it)
+		lab.Argeq = true
+		for _, inv := range [][][]string{inv1, inv2} {
+			if len(inv) > 1 || (len(inv) == 1 && !zvwStrsEq(inv[0], want)) {
+				lab.Argeq = false
+			}
+		}
 	}()
 	lab.Aerr, lab.Cerr = derr != nil, cerr != nil
 	lab.Reseq = (dc == nil && cc == nil) || (dc != nil && cc != nil && bytes.Equal(dc.Raw, cc.Raw))
@@ -1038,9 +1057,9 @@ func toolCertOp(env *wEnv, td *rToolDir, r *mrand.Rand, op string, remote bool) 
 }
 
 // ---------------------------------------------------------------------------------------------
-// the real twin
+// the real zvwTwin
 
-func stateTag(e *wEnv) string {
+func zvwStateTag(e *zvwWEnv) string {
 	h := sha256.New()
 	lockedProbe := e.kr.Unlock([]byte("\x00verif-probe"))
 	if lockedProbe != nil && lockedProbe.Error() == "agent: not locked" {
@@ -1065,26 +1084,26 @@ func stateTag(e *wEnv) string {
 	return hex.EncodeToString(h.Sum(nil))[:16]
 }
 
-type twin struct {
-	a, b *wEnv
-	pair *rPair
-	td   *rToolDir
+type zvwTwin struct {
+	a, b *zvwWEnv
+	pair *zvwRPair
+	td   *zvwRToolDir
 	pass [][]byte
 }
 
-func (t *twin) ensure() {
+func (t *zvwTwin) ensure() {
 	if t.pair == nil || t.pair.ended() {
 		if t.pair != nil {
 			t.pair.close()
 		}
-		t.pair = newPair(t.a.srv)
+		t.pair = zvwNewPair(t.a.srv)
 	}
 }
 
 // realOp applies one operation through the client to server A and directly to server B.
-func (t *twin) realOp(r *mrand.Rand, op string) (lab rLabel, vr string) {
+func (t *zvwTwin) realOp(r *mrand.Rand, op string) (lab zvwRLabel, vr string) {
 	t.ensure()
-	lab = rLabel{Op: op, Code: -1, Mode: "real", Remote: true, Lines: []rLine{}, Slots: []string{}, Steq: true, Argeq: true, Reseq: true, Ncalls: 1}
+	lab = zvwRLabel{Op: op, Code: -1, Mode: "real", Remote: true, Lines: []zvwRLine{}, Slots: []string{}, Steq: true, Argeq: true, Reseq: true, Ncalls: 1}
 	cl, d := t.pair.cl, YubiAgent(t.b.srv)
 	var ce, de error
 	t.td.arm([]byte("Slot 9a:\t\n"), 0)
@@ -1101,16 +1120,16 @@ func (t *twin) realOp(r *mrand.Rand, op string) (lab rLabel, vr string) {
 			case 1:
 				return t.a.held[1].Pub
 			case 2:
-				return wHeldCert()
+				return zvwWHeldCert()
 			}
-			return rndPub(r, "k1")
+			return zvwRndPub(r, "k1")
 		}
 		switch op {
 		case "list":
 			x, e1 := cl.List()
 			y, e2 := d.List()
 			ce, de = e1, e2
-			lab.Reseq = keysEq(x, y)
+			lab.Reseq = zvwKeysEq(x, y)
 		case "signers":
 			// the agent protocol has no "signers" request: the client builds its signers from a list request, so
 			// the reference is the served agent's List (AgentWire: MethodOf["signers"] = "List")
@@ -1125,10 +1144,10 @@ func (t *twin) realOp(r *mrand.Rand, op string) (lab rLabel, vr string) {
 			for _, k := range y {
 				exp = append(exp, &agent.Key{Format: k.Format, Blob: k.Blob})
 			}
-			lab.Reseq = keysEq(got, exp)
+			lab.Reseq = zvwKeysEq(got, exp)
 		case "sign":
 			key := pickPub()
-			data := rndBytes(r, rndSize(r, 65536))
+			data := zvwRndBytes(r, zvwRndSize(r, 65536))
 			fl := []agent.SignatureFlags{0, 2, 4}[r.Intn(3)]
 			x, e1 := cl.SignWithFlags(key, data, fl)
 			y, e2 := d.SignWithFlags(key, data, fl)
@@ -1143,8 +1162,8 @@ func (t *twin) realOp(r *mrand.Rand, op string) (lab rLabel, vr string) {
 			}
 			vr = fmt.Sprintf("d%d-f%d", len(data), fl)
 		case "add", "addc":
-			kp := rndKeyPair(r, "k2")
-			ak := agent.AddedKey{PrivateKey: kp.Priv, Comment: rndComment(r)}
+			kp := zvwRndKeyPair(r, "k2")
+			ak := agent.AddedKey{PrivateKey: kp.Priv, Comment: zvwRndComment(r)}
 			if op == "addc" {
 				ak.LifetimeSecs = 1000 + uint32(r.Intn(100000))
 				ak.ConfirmBeforeUse = false
@@ -1164,11 +1183,11 @@ func (t *twin) realOp(r *mrand.Rand, op string) (lab rLabel, vr string) {
 				ce, de = cl.Unlock(p), d.Unlock(p)
 			}
 		case "ahc_s", "ahc_l":
-			var key ssh.PublicKey = wHeldCert()
+			var key ssh.PublicKey = zvwWHeldCert()
 			if r.Intn(3) == 0 {
 				key = pickPub()
 			}
-			cm := rndComment(r)
+			cm := zvwRndComment(r)
 			if op == "ahc_s" {
 				ce, de = cl.AddHardCert(key, cm), d.AddHardCert(key, cm)
 			} else {
@@ -1192,7 +1211,7 @@ func (t *twin) realOp(r *mrand.Rand, op string) (lab rLabel, vr string) {
 			w := byte(40 + r.Intn(216))
 			ce, de = cl.Wait(w), d.Wait(w)
 		case "forward":
-			req := append([]byte{byte([]int{27, 9, 20, 36, 255}[r.Intn(5)])}, rndBytes(r, rndSize(r, 2000))...)
+			req := append([]byte{zvwRndFwdCode(r)}, zvwRndBytes(r, zvwRndSize(r, 2000))...)
 			x, e1 := cl.Forward(req)
 			y, e2 := d.Forward(req)
 			ce, de = e1, e2
@@ -1211,7 +1230,7 @@ func (t *twin) realOp(r *mrand.Rand, op string) (lab rLabel, vr string) {
 		case <-time.After(5 * time.Second):
 		}
 	}
-	lab.Steq = stateTag(t.a) == stateTag(t.b)
+	lab.Steq = zvwStateTag(t.a) == zvwStateTag(t.b)
 	return lab, vr
 }
 
@@ -1223,7 +1242,7 @@ func TestVerifRpc(t *testing.T) {
 		t.Skip("VERIF_PLAN / VERIF_OUT not set")
 	}
 	stdlog.SetOutput(io.Discard)
-	var plan rPlan
+	var plan zvwRPlan
 	raw, err := os.ReadFile(planPath)
 	if err != nil {
 		t.Fatal(err)
@@ -1246,29 +1265,29 @@ func TestVerifRpc(t *testing.T) {
 	if plan.Reps <= 0 {
 		plan.Reps = 1
 	}
-	x509Pool()
+	zvwX509Pool()
 	seed := verifh.Seed()
 
-	var jobs []rGen
+	var jobs []zvwRGen
 	for i := range plan.Cases {
 		reps := plan.Reps
-		if (plan.Cases[i].Op == "ahc_s" || plan.Cases[i].Op == "ahc_l") && reps < len(rKinds) {
-			reps = len(rKinds) // every key type
+		if (plan.Cases[i].Op == "ahc_s" || plan.Cases[i].Op == "ahc_l") && reps < len(zvwRKinds) {
+			reps = len(zvwRKinds) // every key type
 		}
 		if (plan.Cases[i].Op == "readslot" || plan.Cases[i].Op == "attestslot") && reps < 4 {
 			reps = 4 // every result shape
 		}
 		for r := 0; r < reps; r++ {
 			c := plan.Cases[i]
-			jobs = append(jobs, rGen{Kind: "case", I: i, R: r, Seed: seed, Case: &c})
+			jobs = append(jobs, zvwRGen{Kind: "case", I: i, R: r, Seed: seed, Case: &c})
 		}
 	}
 	for i := range plan.Tools {
 		tl := plan.Tools[i]
-		jobs = append(jobs, rGen{Kind: "tool", I: i, Seed: seed, Tool: &tl})
+		jobs = append(jobs, zvwRGen{Kind: "tool", I: i, Seed: seed, Tool: &tl})
 	}
 	for i := 0; i < plan.Random; i++ {
-		jobs = append(jobs, rGen{Kind: "hist", I: i, Seed: seed, HistLen: plan.HistLen})
+		jobs = append(jobs, zvwRGen{Kind: "hist", I: i, Seed: seed, HistLen: plan.HistLen})
 	}
 	jobs = append(jobs, plan.Replays...)
 
@@ -1277,19 +1296,19 @@ func TestVerifRpc(t *testing.T) {
 	labels := map[string]bool{}
 	var samples []interface{}
 	type step struct {
-		lab  rLabel
+		lab  zvwRLabel
 		vr   string
 		post string
 	}
-	emit := func(g rGen, tid string, steps []step, h0 string) {
-		recs := []interface{}{rRec{Ev: "reset", Fam: "r", Tid: tid, Post: rSt{H: h0}, Info: map[string]interface{}{"gen": g}}}
+	emit := func(g zvwRGen, tid string, steps []step, h0 string) {
+		recs := []interface{}{zvwRRec{Ev: "reset", Fam: "r", Tid: tid, Post: zvwRSt{H: h0}, Info: map[string]interface{}{"gen": g}}}
 		pre := h0
 		mu.Lock()
 		for i := range steps {
-			p := rSt{H: pre}
+			p := zvwRSt{H: pre}
 			l := steps[i].lab
 			if l.Lines == nil {
-				l.Lines = []rLine{}
+				l.Lines = []zvwRLine{}
 			}
 			if l.Slots == nil {
 				l.Slots = []string{}
@@ -1297,7 +1316,7 @@ func TestVerifRpc(t *testing.T) {
 			if l.Shape == "" {
 				l.Shape = "normal"
 			}
-			recs = append(recs, rRec{Ev: "step", Fam: "r", Tid: tid, Pre: &p, E: &l, Post: rSt{H: steps[i].post}, Info: map[string]string{"var": steps[i].vr}})
+			recs = append(recs, zvwRRec{Ev: "step", Fam: "r", Tid: tid, Pre: &p, E: &l, Post: zvwRSt{H: steps[i].post}, Info: map[string]string{"var": steps[i].vr}})
 			pre = steps[i].post
 			stats["steps"]++
 			if l.Pan {
@@ -1321,16 +1340,16 @@ func TestVerifRpc(t *testing.T) {
 	defArgs := map[string]string{"key": "k1", "data": "d1", "flags": "f0", "lt": "60", "cf": "y", "pass": "p1", "comment": "c1", "slot": "9a", "w": "w40", "raw": "r1"}
 
 	var wg sync.WaitGroup
-	ch := make(chan rGen, 64)
+	ch := make(chan zvwRGen, 64)
 	for w := 0; w < plan.Workers; w++ {
 		wg.Add(1)
 		go func(wid int) {
 			defer wg.Done()
-			td := newToolDir(base, wid)
-			var env *wEnv
-			getEnv := func() *wEnv {
+			td := zvwNewToolDir(base, wid)
+			var env *zvwWEnv
+			getEnv := func() *zvwWEnv {
 				if env == nil {
-					env = newWEnv(base, verifh.NewRand("rpc-env", int64(wid)), true, td.path)
+					env = zvwNewWEnv(base, verifh.NewRand("rpc-env", int64(wid)), true, td.path)
 				}
 				return env
 			}
@@ -1343,7 +1362,7 @@ func TestVerifRpc(t *testing.T) {
 				switch g.Kind {
 				case "case":
 					r := verifh.NewRand("rpc-case", int64(g.I*1000+g.R))
-					c := &rCtx{r: r, rec: &recAgent{}, kind: g.R}
+					c := &zvwRCtx{r: r, rec: &zvwRecAgent{}, kind: g.R}
 					lab, vr := c.recOp(g.Case.Op, g.Case.A)
 					c.pair.close()
 					emit(g, fmt.Sprintf("c%d_%d", g.I, g.R), []step{{lab, vr, ""}}, "")
@@ -1351,7 +1370,7 @@ func TestVerifRpc(t *testing.T) {
 					var parts []string
 					r := verifh.NewRand("rpc-tool", int64(g.I))
 					for _, tk := range g.Tool.Text {
-						v := rLineTexts[tk]
+						v := zvwRLineTexts[tk]
 						parts = append(parts, v[r.Intn(len(v))])
 					}
 					out := strings.Join(parts, "\n")
@@ -1359,11 +1378,11 @@ func TestVerifRpc(t *testing.T) {
 						out += "\n"
 					}
 					var steps []step
-					for _, x := range toolListSlots(getEnv(), td, out, g.Tool.Exit, false) {
+					for _, x := range zvwToolListSlots(getEnv(), td, out, g.Tool.Exit, false) {
 						steps = append(steps, step{x.lab, x.vr, ""})
 					}
 					if g.I%16 == 0 { // the same output behind a remote-mode server: refused, tool not run
-						for _, x := range toolListSlots(getEnv(), td, out, g.Tool.Exit, true) {
+						for _, x := range zvwToolListSlots(getEnv(), td, out, g.Tool.Exit, true) {
 							steps = append(steps, step{x.lab, x.vr, ""})
 						}
 					}
@@ -1374,7 +1393,7 @@ func TestVerifRpc(t *testing.T) {
 					h0 := ""
 					switch g.I % 3 {
 					case 0: // recording agent, one connection
-						c := &rCtx{r: r, rec: &recAgent{}, kind: -1}
+						c := &zvwRCtx{r: r, rec: &zvwRecAgent{}, kind: -1}
 						for k := 0; k < g.HistLen; k++ {
 							op := opsAll[r.Intn(len(opsAll))]
 							a := map[string]string{}
@@ -1392,14 +1411,14 @@ func TestVerifRpc(t *testing.T) {
 						if c.pair != nil {
 							c.pair.close()
 						}
-					case 1: // real twin
-						tw := &twin{a: newWEnv(base, verifh.NewRand("rpc-twa", int64(g.I)), true, td.path),
-							b: newWEnv(base, verifh.NewRand("rpc-twb", int64(g.I)), true, td.path), td: td,
-							pass: [][]byte{rndBytes(r, r.Intn(30)), rndBytes(r, 1+r.Intn(30))}}
-						h0 = stateTag(tw.a)
+					case 1: // real zvwTwin
+						tw := &zvwTwin{a: zvwNewWEnv(base, verifh.NewRand("rpc-twa", int64(g.I)), true, td.path),
+							b: zvwNewWEnv(base, verifh.NewRand("rpc-twb", int64(g.I)), true, td.path), td: td,
+							pass: [][]byte{zvwRndBytes(r, r.Intn(30)), zvwRndBytes(r, 1+r.Intn(30))}}
+						h0 = zvwStateTag(tw.a)
 						for k := 0; k < g.HistLen; k++ {
 							lab, vr := tw.realOp(r, opsReal[r.Intn(len(opsReal))])
-							steps = append(steps, step{lab, vr, stateTag(tw.a)})
+							steps = append(steps, step{lab, vr, zvwStateTag(tw.a)})
 						}
 						if tw.pair != nil {
 							tw.pair.close()
@@ -1415,14 +1434,14 @@ func TestVerifRpc(t *testing.T) {
 								for n := r.Intn(7); n > 0; n-- {
 									switch r.Intn(4) {
 									case 0:
-										s := wSlots[r.Intn(7)]
+										s := zvwWSlots[r.Intn(7)]
 										parts = append(parts, "Slot "+s+[]string{":\t", "", ":", " extra text"}[r.Intn(4)])
 									case 1:
 										parts = append(parts, "Slot 9a:\t"[:r.Intn(10)])
 									case 2:
-										parts = append(parts, strings.ReplaceAll(strings.ReplaceAll(rndComment(r), "\n", " "), ",", ";"))
+										parts = append(parts, strings.ReplaceAll(strings.ReplaceAll(zvwRndComment(r), "\n", " "), ",", ";"))
 									default:
-										v := rLineTexts["other"]
+										v := zvwRLineTexts["other"]
 										parts = append(parts, v[r.Intn(len(v))])
 									}
 								}
@@ -1434,14 +1453,14 @@ func TestVerifRpc(t *testing.T) {
 								if r.Intn(5) == 0 {
 									exit = 1
 								}
-								for _, x := range toolListSlots(getEnv(), td, out, exit, remote) {
+								for _, x := range zvwToolListSlots(getEnv(), td, out, exit, remote) {
 									steps = append(steps, step{x.lab, x.vr, ""})
 								}
 							case 1:
-								lab, vr := toolCertOp(getEnv(), td, r, "readslot", remote)
+								lab, vr := zvwToolCertOp(getEnv(), td, r, "readslot", remote)
 								steps = append(steps, step{lab, vr, ""})
 							default:
-								lab, vr := toolCertOp(getEnv(), td, r, "attestslot", remote)
+								lab, vr := zvwToolCertOp(getEnv(), td, r, "attestslot", remote)
 								steps = append(steps, step{lab, vr, ""})
 							}
 						}
